@@ -301,10 +301,17 @@ func c18run(out *rec.Out, c c18case, rng *rec.Rng, tier string, stats map[string
 		<-done
 		timedOut = true
 	}
+	var raw, procs []string
 	for _, l := range strings.Split(strings.TrimRight(so.String(), "\n"), "\n") {
 		if l != "" {
-			out.Line("%s", l)
+			raw = append(raw, l)
+			if w := strings.Fields(l); len(w) == 4 && w[0] == "set" && w[1] == "proc" {
+				procs = append(procs, w[2])
+			}
 		}
+	}
+	for _, l := range eng.ResolveLabels(raw, procs) {
+		out.Line("%s", l)
 	}
 	switch {
 	case timedOut:
@@ -483,21 +490,21 @@ func c18sub(spec string) {
 		held = pSub
 		c18say("sched hold %s %s", pSub, c.Sched)
 	}
-	s, err := eng.NewSet(defs)
+	s, err := eng.NewSet(defs, func(l string) { c18say("%s", l) })
 	if err != nil {
 		c18say("harness-error %v", err)
 		return
 	}
-	printed := 0
-	flush := func() {
-		ls := s.Lines()
-		for ; printed < len(ls); printed++ {
-			c18say("%s", ls[printed])
+	answer := func(q *eng.Req) {
+		if withV[q.Node] {
+			s.Answer(q, map[string]int{"v": v})
+		} else {
+			s.Answer(q, nil)
 		}
 	}
 	release := func() {
 		if held != "" {
-			s.Op("release %s", held)
+			s.Say("op release %s", held)
 			ctl.Release(held)
 			held = ""
 		}
@@ -506,13 +513,31 @@ func c18sub(spec string) {
 	wait := func(d time.Duration) {
 		nwait++
 		n := nwait
-		s.Op("wait %d", n)
-		flush()
+		s.Say("op wait %d", n)
 		r := s.Wait(d)
-		s.Note("obs wait %d %d", n, rec.B(r))
+		// the set's watchers are one relay hop closer to the member processes than this recorder: let the traces
+		// that caused the return arrive before the return is recorded
+		s.Quiesce(2 * timeSecond)
+		s.Say("obs wait %d %d", n, rec.B(r))
+	}
+	// concurrent waits report to the main goroutine, which records them at its next quiescent point
+	type cres struct {
+		i int
+		r bool
+	}
+	concRes := make(chan cres, 16)
+	recordWaits := func() {
+		for {
+			select {
+			case x := <-concRes:
+				s.Say("obs waitconc %d %d", x.i, rec.B(x.r))
+			default:
+				return
+			}
+		}
 	}
 	// StartAll (in a goroutine: with a repaired StartAll the held subscription point is inside StartAll itself)
-	s.Op("startall")
+	s.Say("op startall")
 	started := make(chan error, 1)
 	go func() { started <- s.PS.StartAll(s.Ctx) }()
 	startReturned := false
@@ -520,7 +545,7 @@ func c18sub(spec string) {
 	case err := <-started:
 		startReturned = true
 		if err != nil {
-			s.Note("obs startall error")
+			s.Say("obs startall error")
 		}
 	case <-time.After(300 * time.Millisecond):
 	}
@@ -535,7 +560,7 @@ func c18sub(spec string) {
 		case <-started:
 			startReturned = true
 		case <-time.After(3 * time.Second):
-			s.Note("obs startall blocked")
+			s.Say("obs startall blocked")
 		}
 		s.Quiesce(4 * timeSecond)
 	}
@@ -543,7 +568,7 @@ func c18sub(spec string) {
 		// from now on the only StartWith calls are the run loop's instantiations
 		ctl.Hold(pInst)
 		held = pInst
-		s.Op("hold %s", pInst)
+		s.Say("op hold %s", pInst)
 	}
 	if c.Mode == "early" {
 		// a wait that expires while tasks are pending (or returns true if everything is already over)
@@ -553,31 +578,28 @@ func c18sub(spec string) {
 	var cw sync.WaitGroup
 	if c.Mode == "conc" {
 		// concurrent waits issued BEFORE completion, from several goroutines
-		s.Op("waitconc %d", c.K)
-		flush()
+		s.Say("op waitconc %d", c.K)
 		for i := 0; i < c.K; i++ {
 			cw.Add(1)
 			go func(i int) {
 				defer cw.Done()
-				r := s.Wait(3 * time.Second)
-				s.Note("obs waitconc %d %d", i+1, rec.B(r))
+				concRes <- cres{i + 1, s.Wait(3 * time.Second)}
 			}(i)
 		}
 		s.Quiesce(2 * timeSecond)
-		flush()
 	}
 	// drive: answer pending tasks one at a time at quiescence, in a seeded order
 	for steps := 0; steps < 60; steps++ {
 		if !s.Quiesce(4 * timeSecond) {
-			s.Note("obs noquiesce")
+			s.Say("obs noquiesce")
 			break
 		}
-		flush()
+		recordWaits()
 		p := s.Pending()
 		if len(p) == 0 {
 			break
 		}
-		c18answer(s.Inst, p[rng.Intn(len(p))], withV, v)
+		answer(p[rng.Intn(len(p))])
 	}
 	if c.Sched == "holdinst" {
 		// the run loop is parked inside the instantiation; every process started so far has finished
@@ -586,7 +608,6 @@ func c18sub(spec string) {
 	}
 	release()
 	s.Quiesce(4 * timeSecond)
-	flush()
 	switch c.Mode {
 	case "single", "early":
 		if c.Sched != "holdinst" {
@@ -601,15 +622,15 @@ func c18sub(spec string) {
 		cw.Wait()
 	}
 	s.Quiesce(3 * timeSecond)
+	recordWaits()
 	// a process instantiated late may have requested tasks after the wait returned
 	for steps := 0; steps < 20; steps++ {
 		p := s.Pending()
 		if len(p) == 0 {
 			break
 		}
-		c18answer(s.Inst, p[0], withV, v)
+		answer(p[0])
 		s.Quiesce(3 * timeSecond)
 	}
-	flush()
 	c18say("obs final hits_sub=%d hits_after_start=%d", ctl.Hits(pSub), ctl.Hits("processset.startall.after_process_start"))
 }
